@@ -698,6 +698,9 @@ class Runner:
         elif cn == "RegexParser":
             from microjs.regex.parser import RegexParser
             o = RegexParser("")
+        elif cn == "JSError":
+            from microjs.errors import JSError
+            o = JSError("m")
         elif objs.get("__heap__"):
             o = object()            # a host object of a class the script never sees (placeholder in a counter-model)
         else:
